@@ -11,8 +11,10 @@ use crate::rng::Rng;
 use serde_json::{json, Value};
 use std::io::Write;
 
-const ZONES: [&str; 14] = ["America/New_York", "Europe/Berlin", "Asia/Tokyo", "Australia/Sydney", "America/Sao_Paulo", "Africa/Cairo",
-    "Asia/Kolkata", "Europe/London", "Pacific/Auckland", "America/Los_Angeles", "UTC", "Europe/Paris", "US/Eastern", "Pacific/Apia"];
+// the last six: zones that share long identifier prefixes but have different rules (a cache keyed by a shortened identifier would confuse them)
+const ZONES: [&str; 20] = ["America/New_York", "Europe/Berlin", "Asia/Tokyo", "Australia/Sydney", "America/Sao_Paulo", "Africa/Cairo",
+    "Asia/Kolkata", "Europe/London", "Pacific/Auckland", "America/Los_Angeles", "UTC", "Europe/Paris", "US/Eastern", "Pacific/Apia",
+    "America/Indiana/Indianapolis", "America/Indiana/Knox", "America/Argentina/Buenos_Aires", "America/Argentina/San_Luis", "America/North_Dakota/Center", "America/Kentucky/Monticello"];
 const FIXED: [&str; 3] = ["+05:30", "-08:00", "+00:00"];
 const BAD: [&str; 3] = ["Nowhere/Land", "Mars/Olympus_Mons", "Europe/Atlantis"];
 const FIELDS: [&str; 13] = ["year", "month", "day", "hour", "minute", "second", "millisecond", "dayOfWeek", "dayOfYear", "daysInMonth", "inLeapYear", "hoursInDay", "offsetSeconds"];
@@ -99,10 +101,20 @@ fn natural_panic(r: &mut Rng) -> Value {
 }
 
 fn burst(r: &mut Rng, pool: &[&'static str], m: usize) -> Value {
-    Value::Array((0..m).map(|_| {
+    let mut v: Vec<Value> = Vec::new();
+    while v.len() < m {
         let fault = match r.range(0, 11) { 0 => "unknown", 1 => "range", _ => "" };
-        call(r, pool, fault)
-    }).collect())
+        // "X, failing call, X again": a failed call between two identical successful ones must not change the second answer
+        // (with one thread the three calls are consecutive for the provider; with more threads they usually are not)
+        if fault != "" && r.chance(1, 2) {
+            let x = json!({"op": "CPDT.toZoned", "args": {"dt": {"y": 2001, "m": 9, "d": 9, "h": r.range(0, 23), "mi": r.range(0, 59), "s": 0, "ms": 0, "us": 0, "ns": 0}, "tz": zone(r, pool, "")}});
+            let bad = json!({"op": "CPDT.toZoned", "args": {"dt": {"y": 275760, "m": 9, "d": 13, "h": 23, "mi": 59, "s": 0, "ms": 0, "us": 0, "ns": 0}, "tz": *r.pick(&["America/New_York", "America/Los_Angeles", "America/Sao_Paulo"][..])}});
+            v.push(x.clone()); v.push(if fault == "range" { bad } else { call(r, pool, fault) }); v.push(x);
+            continue;
+        }
+        v.push(call(r, pool, fault));
+    }
+    Value::Array(v)
 }
 
 /// session plan: {"n": N, "kind", "phases": [[[call..] per thread] per phase]}
@@ -112,6 +124,8 @@ pub fn plan(r: &mut Rng, sid: usize) -> Value {
     let k = if r.chance(1, 2) { r.range(1, 3) as usize } else { r.range(4, ZONES.len() as i64) as usize };
     let mut pool: Vec<&'static str> = Vec::new();
     while pool.len() < k { let z = *r.pick(&ZONES); if !pool.contains(&z) { pool.push(z); } }
+    // in half of the sessions two zones with a common 16-byte identifier prefix and different rules are used side by side
+    if r.chance(1, 2) { for z in ["America/Indiana/Indianapolis", "America/Indiana/Knox"] { if !pool.contains(&z) { pool.push(z); } } }
     let per = r.range(4, 10) as usize;
     let fault_session = sid % 3 == 2;
     let mut phases: Vec<Value> = Vec::new();
